@@ -72,6 +72,18 @@ pub fn ran(i: usize) -> u8 {
     unsafe { RAN[i] }
 }
 
+/// `RAN == *a` without going through memcmp
+pub fn ran_is(a: &[u8; 6]) -> bool {
+    let mut i = 0;
+    while i < 6 {
+        if ran(i) != a[i] {
+            return false;
+        }
+        i += 1;
+    }
+    true
+}
+
 pub fn cb(i: usize) -> v::Callback {
     Box::new(move || unsafe { RAN[i] += 1 })
 }
